@@ -4,7 +4,7 @@
 From Coq Require Import ZArith List String Bool Permutation.
 Import ListNotations.
 From TD Require Import Model.C10_Meta Model.C10_Sched Model.C10_Fault Model.C10_Refresh Proofs.C10_MetaP Proofs.C10_SchedP Proofs.C10_TasksP
-  Proofs.C10_GrowP Proofs.C10_FaultP Proofs.C10_RefreshP.
+  Proofs.C10_GrowP Proofs.C10_FaultP Proofs.C10_RefreshP Proofs.C10_GrowNestedP Proofs.C10_RefreshNestedP.
 Open Scope string_scope.
 Open Scope list_scope.
 
@@ -222,11 +222,24 @@ Theorem C10_make_memmap_merge : forall o bs ents k l d,
 Proof. exact make_memmap_merge_lemma. Qed.
 Print Assumptions C10_make_memmap_merge.
 
-(* stated, not proved: the same for a nested key (intermediate nodes created by _make_memmap_subtd, each with its own
-   read-modify-write of the parent's meta.json).  The correspondence run compares directory and loader on such calls. *)
+(* the same for a NESTED key of any depth (intermediate nodes that exist are walked into, missing ones are created by
+   _make_memmap_subtd as empty tensordicts with the batch size of their parent, saved in their own directory and registered
+   in the parent's meta.json by a read-modify-write; the leaf's node re-writes its own meta.json): after ANY such call that
+   returns, the directory loads as the grown tensordict.  (Stated, not proved, until this round.) *)
 Definition C10_make_memmap_merge_full_statement : Prop :=
   forall o t ks k l d t' d', valid_root o t = true -> leaf_ok o l = true -> Forall (fun x => reserved x = false) (k :: ks) ->
   encode o t = Ok d -> grow_at ks k l t d = Ok (t', d') -> decode d' = Ok (norm t').
+Theorem C10_make_memmap_merge_nested : C10_make_memmap_merge_full_statement.
+Proof. intros o t ks k l d t' d' Hv Hl _ He Hg. exact (make_memmap_merge_nested_lemma o t ks k l d t' d' Hv Hl He Hg). Qed.
+Print Assumptions C10_make_memmap_merge_nested.
+
+(* ... and the call does return (the hypothesis of the theorem above is met) exactly when no entry on the way is in the
+   way: every key of the path that exists is a TensorDict, the last key is new, no key is a field name of meta.json *)
+Theorem C10_make_memmap_nested_returns : forall o t ks k l d,
+  valid_root o t = true -> encode o t = Ok d -> path_free ks k t = true ->
+  exists t' d', grow_at ks k l t d = Ok (t', d').
+Proof. exact make_memmap_nested_returns_lemma. Qed.
+Print Assumptions C10_make_memmap_nested_returns.
 
 (* ================================================================== (d) load_memmap_ / memmap_refresh_ *)
 
@@ -243,12 +256,80 @@ Theorem C10_load_into_refuses_other_kind : forall o bs ents d l,
 Proof. exact load_into_kind_mismatch. Qed.
 Print Assumptions C10_load_into_refuses_other_kind.
 
-(* stated, not proved: a second mapping of the directory, refreshed after make_memmap* calls through the first one, is
-   the grown tensordict as a mapping.  The correspondence run compares [refresh] / [load_into] with memmap_refresh_ /
-   load_memmap_ of the real code on every generated grow case; C10_ex_refresh below is one instance. *)
+(* a second mapping of the directory (loaded before the call), refreshed with memmap_refresh_ / load_memmap_ after a
+   make_memmap* call of ANY depth through the first mapping, is the grown tensordict as a mapping: every key of every
+   node, the new entry and the nodes created on the way included.  The refresh does succeed (exists r).
+   The statement as it stood before this round had no hypothesis on the new leaf; the model's [leaf] record can hold a
+   cell list that disagrees with its shape (no tensor does), and for such a record it is false
+   (C10_refresh_needs_a_wellformed_leaf below): [leaf_ok] is the well-formedness of the leaf, as in C10_make_memmap_merge. *)
 Definition C10_refresh_sees_make_memmap_full_statement : Prop :=
-  forall o t d ks k l t' d' r, valid_root o t = true -> encode o t = Ok d -> grow_at ks k l t d = Ok (t', d') ->
-  refresh d d' = Ok r -> same_mapping r (norm t').
+  forall o t d ks k l t' d', valid_root o t = true -> leaf_ok o l = true -> encode o t = Ok d -> grow_at ks k l t d = Ok (t', d') ->
+  exists r, refresh d d' = Ok r /\ same_mapping r (norm t').
+
+Theorem C10_refresh_sees_make_memmap : C10_refresh_sees_make_memmap_full_statement.
+Proof. exact refresh_sees_make_memmap_lemma. Qed.
+Print Assumptions C10_refresh_sees_make_memmap.
+
+(* both halves of "seen by every other mapping of the same directory and by later loads" in one statement: after a
+   make_memmap* call of any depth the refreshed second mapping and a fresh load of the directory are the same mapping *)
+Theorem C10_refreshed_mapping_is_a_later_load : forall o t d ks k l t' d',
+  valid_root o t = true -> leaf_ok o l = true -> encode o t = Ok d -> grow_at ks k l t d = Ok (t', d') ->
+  exists r fresh, refresh d d' = Ok r /\ decode d' = Ok fresh /\ same_mapping r fresh /\ fresh = norm t'.
+Proof.
+  intros o t d ks k l t' d' Hv Hl He Hg.
+  destruct (refresh_sees_make_memmap_lemma o t d ks k l t' d' Hv Hl He Hg) as (r & Hr & Hs).
+  exists r, (norm t'). repeat split; auto. exact (make_memmap_merge_nested_lemma o t ks k l d t' d' Hv Hl He Hg).
+Qed.
+Print Assumptions C10_refreshed_mapping_is_a_later_load.
+
+(* what carries it: every sub-collection next to the path — TensorDict, lazy stack (members refreshed in place),
+   tensorclass (fields from meta.json / other.pickle, "_tensordict" refreshed), NonTensorData (payload from disk),
+   NonTensorStack (left as it is) — refreshed from its own unchanged directory is itself as a mapping; at the root:
+   memmap_refresh_ with nothing changed on disk changes nothing *)
+Theorem C10_refresh_unchanged : forall o t d,
+  valid_root o t = true -> encode o t = Ok d -> exists r, refresh d d = Ok r /\ same_mapping r (norm t).
+Proof. exact refresh_unchanged_lemma. Qed.
+Print Assumptions C10_refresh_unchanged.
+
+(* the instance for tensordicts whose sub-collections are all TensorDicts (what make_memmap* itself can build) *)
+Theorem C10_refresh_sees_make_memmap_nodes : forall o t d ks k l t' d',
+  valid_root o t = true -> only_nodes t = true -> leaf_ok o l = true -> encode o t = Ok d -> grow_at ks k l t d = Ok (t', d') ->
+  exists r, refresh d d' = Ok r /\ same_mapping r (norm t').
+Proof. exact refresh_sees_make_memmap_nodes_lemma. Qed.
+Print Assumptions C10_refresh_sees_make_memmap_nodes.
+
+(* the step every case goes through, for ANY kind of neighbours: a TensorDict node (as loaded earlier) refreshed from a
+   directory whose meta.json lists its old records, "shape"/"device"/"_type", then the records make_memmap appended, and
+   whose sub-directories each refresh the existing entry / load as the new one, is the described node as a mapping *)
+Theorem C10_refresh_node_step : forall o bs E e1 e2 files sl,
+  keys_ok (e1 ++ e2) -> Forall (entry_okw o) (e1 ++ e2) -> Forall (bs_ok bs) (e1 ++ e2) ->
+  fget FMeta files = Some (CJson (JObj (recs e1 ++ tail3 bs ++ recs e2))) ->
+  (forall k l, In (k, Leaf l) (e1 ++ e2) -> leaf_file_spec files k l) ->
+  NoDup (map fst E) -> (forall k, In k (map fst E) -> In k (map fst (e1 ++ e2))) ->
+  (forall k c c', sget k E = Some c -> sget k (e1 ++ e2) = Some c' -> is_leaf c' = false -> is_leaf c = false) ->
+  Forall2 (sub_refreshes E) (filter nonleaf (e1 ++ e2)) sl ->
+  exists r, load_into (Dir files sl) (norm (Node bs E)) = Ok r /\ same_mapping r (norm (Node bs (e1 ++ e2))).
+Proof. exact refresh_node. Qed.
+Print Assumptions C10_refresh_node_step.
+
+Definition nodes_tree : td :=
+  Node [2] [("a", f32 [2] [1%Z; 2%Z]); ("n", Node [2] [("b", f32 [2; 0] []); ("e", Node [2; 1] [])]); ("z", f32 [2] [3%Z; 4%Z])].
+Definition new_leaf : leaf := {| lshape := [2; 2]; ldtype := I16; lcells := [1; 2; 3; 4]%Z; lsrc := InMem |}.
+Example C10_ex_refresh_nodes :
+  valid_root default_opts nodes_tree = true /\ only_nodes nodes_tree = true
+  /\ leaf_ok default_opts new_leaf = true
+  /\ path_free ["n"; "deep"] "new" nodes_tree = true /\ path_free ["n"; "e"] "new" nodes_tree = true /\ path_free [] "new" nodes_tree = true.
+Proof. repeat split; reflexivity. Qed.
+(* without the well-formedness of the new leaf the statement is false in the model: shape [0] with one cell *)
+Example C10_refresh_needs_a_wellformed_leaf :
+  let l := {| lshape := [0]; ldtype := I64; lcells := [1%Z]; lsrc := InMem |} in
+  exists d t' d' r, encode default_opts (Node [] []) = Ok d /\ grow_at [] "a" l (Node [] []) d = Ok (t', d')
+    /\ refresh d d' = Ok r /\ ~ same_mapping r (norm t') /\ leaf_ok default_opts l = false.
+Proof.
+  do 4 eexists. split; [vm_compute; reflexivity|]. split; [vm_compute; reflexivity|]. split; [vm_compute; reflexivity|].
+  split; [|reflexivity]. vm_compute. intro H. inversion H as [|? ? ? Hk Hs Hlen| | | |]. subst.
+  specialize (Hs "a" _ _ eq_refl eq_refl). inversion Hs. cbn in *. discriminate.
+Qed.
 
 (* ================================================================== non-vacuity *)
 Definition ex_tree : td :=
@@ -301,3 +382,25 @@ Example C10_ex_grow : exists d d', encode default_opts ex_tree = Ok d
   /\ grow_at [] "new" {| lshape := [2; 2]; ldtype := I16; lcells := [1; 2; 3; 4]%Z; lsrc := MMElsewhere |} ex_tree d
      = Ok (Node [2] (match ex_tree with Node _ es => es | _ => [] end ++ [("new", Leaf {| lshape := [2; 2]; ldtype := I16; lcells := [1; 2; 3; 4]%Z; lsrc := MMElsewhere |})]), d').
 Proof. eexists. eexists. split; vm_compute; reflexivity. Qed.
+(* make_memmap under nested keys: the path is free (the hypothesis of C10_make_memmap_nested_returns) through an existing
+   node and two new ones, through new nodes only; it is not through a tensor, a lazy stack, an existing key, "shape" *)
+Example C10_ex_path_free :
+  path_free ["n"; "deep"] "new" ex_tree = true /\ path_free ["p"; "q"; "r"] "new" ex_tree = true /\ path_free ["n"; "e"] "new" ex_tree = true
+  /\ path_free ["a"] "new" ex_tree = false /\ path_free ["l"] "new" ex_tree = false /\ path_free ["n"] "b" ex_tree = false
+  /\ path_free ["n"; "shape"] "new" ex_tree = false /\ path_free ["n"] "device" ex_tree = false.
+Proof. repeat split; reflexivity. Qed.
+Example C10_ex_grow_nested_loads : exists d t' d',
+  encode default_opts ex_tree = Ok d
+  /\ grow_at ["n"; "deep"; "er"] "new" {| lshape := [2; 0]; ldtype := I16; lcells := []; lsrc := InMem |} ex_tree d = Ok (t', d')
+  /\ decode d' = Ok (norm t') /\ t' <> ex_tree.
+Proof.
+  do 3 eexists. split; [vm_compute; reflexivity|]. split; [vm_compute; reflexivity|]. split; [vm_compute; reflexivity|].
+  vm_compute. discriminate.
+Qed.
+Example C10_ex_only_nodes : only_nodes ex_tree = false. Proof. reflexivity. Qed.
+(* the hypotheses of C10_refresh_sees_make_memmap hold for the mixed tree (lazy stack, two tensorclasses, NonTensorData,
+   NonTensorStack next to the path) and a three-level key with two new nodes *)
+Example C10_ex_refresh_mixed : exists d t' d',
+  encode default_opts ex_tree = Ok d /\ leaf_ok default_opts new_leaf = true
+  /\ grow_at ["n"; "deep"; "er"] "new" new_leaf ex_tree d = Ok (t', d').
+Proof. do 3 eexists. split; [vm_compute; reflexivity|]. split; [reflexivity|vm_compute; reflexivity]. Qed.
